@@ -80,6 +80,7 @@ func rulesC19(c *Ctx) {
 		"R19.2 clean-up pairing: every registered test that programs entries flushes the server afterwards on every non-fatal path (deferred before the first programming step, or explicit)",
 		"R19.3 election ids only move forward: a test leaves the shared counter above every id it announced, and an id below the counter is only used where the counter is provably at least that much above 1",
 		"R19.4 every registered test can fail: it reaches a verdict (chk.*, t.Fatal*/Error*) that is not cut off by an unconditional Skip",
+		"R19.7 the shared clean-up helper flushes all network instances with the election override and fails the test when the flush is refused",
 		"R19.5 configuration set through the exported setters is read when a test runs: no package-level initialiser or init function reads a configurable variable",
 		"R19.6 a result assertion inside a loop depends on the iteration (otherwise one acknowledgement satisfies every iteration and a repeated operation is never examined)")
 	c.NotDec = append(c.NotDec, "actual pass/fail of any test against any server — that is an execution", "the fault catalogue: whether each requirement's tests detect a server violating it")
@@ -95,6 +96,12 @@ func rulesC19(c *Ctx) {
 	ruleCanFail(c, entries)
 	ruleConfigAtCallTime(c)
 	ruleVerdictPerIteration(c)
+	ruleFlushServerHelper(c)
+	// the matchers the suite's verdicts are built from fail when the wanted item is absent (shared with C17)
+	ruleFoundFlag(c)
+	ruleCachedDelegates(c)
+	ruleGetEntriesLookups(c)
+	ruleStatusCompare(c)
 }
 
 func ruleRegistryFIB(c *Ctx, entries []regEntry) {
@@ -355,8 +362,8 @@ func ruleElectionForward(c *Ctx, entries []regEntry) {
 			continue
 		}
 		done[fi.Obj] = true
-		if isSimpleHelperDecl(fi.Decl) {
-			continue // a `return <expr>` helper: its reads are attributed to its call sites
+		if isSimpleHelperDecl(fi.Decl) || isNewFunc(fi.Obj) {
+			continue // a `return <expr>` helper, or a helper unknown to the rules: its reads are attributed to its call sites
 		}
 		info := fi.Pkg.TypesInfo
 		var use electionUse
@@ -391,6 +398,14 @@ func ruleElectionForward(c *Ctx, entries []regEntry) {
 							pos = x.Pos()
 						}
 						scan(hfi.Pkg.TypesInfo, ret, pos, depth+1)
+					} else if f, ok := calleeObj(info, x).(*types.Func); ok && isNewFunc(f) && depth < 3 {
+						if hfi := c.P.infoFor(f); hfi != nil && hfi.Decl.Body != nil {
+							pos := at
+							if pos == token.NoPos {
+								pos = x.Pos()
+							}
+							scan(hfi.Pkg.TypesInfo, hfi.Decl.Body, pos, depth+1)
+						}
 					}
 				}
 				return true
@@ -688,4 +703,90 @@ func ruleVerdictPerIteration(c *Ctx) {
 		visit(fi.Decl.Body, nil)
 	}
 	c.note("VERDICT-PER-ITERATION: %d loops in package compliance, %d chk assertions inside loops", loops, n)
+}
+
+// R19.7 the clean-up every test relies on really cleans up: flushServer flushes
+// all network instances with the election override and fails the test when the
+// server refuses (a later test would otherwise start from leftovers).
+func ruleFlushServerHelper(c *Ctx) {
+	const rule = "CLEANUP-HELPER"
+	fi := c.need("compliance", "", "flushServer")
+	if fi == nil {
+		return
+	}
+	info := fi.Pkg.TypesInfo
+	// the builder chain ending in Send()
+	var send *ast.CallExpr
+	for _, call := range callsIn(fi.Decl.Body) {
+		if se, ok := ast.Unparen(call.Fun).(*ast.SelectorExpr); ok && se.Sel.Name == "Send" {
+			if f, ok := calleeObj(info, call).(*types.Func); ok && recvTypeName(f) == "gRIBIFlush" {
+				send = call
+			}
+		}
+	}
+	if send == nil {
+		c.vanished(rule, fi.Name, "Flush().…Send()", "flushServer sends no Flush")
+		return
+	}
+	chain := map[string]bool{}
+	for e := ast.Expr(send); e != nil; {
+		call, ok := ast.Unparen(e).(*ast.CallExpr)
+		if !ok {
+			break
+		}
+		se, ok := ast.Unparen(call.Fun).(*ast.SelectorExpr)
+		if !ok {
+			break
+		}
+		chain[se.Sel.Name] = true
+		e = se.X
+	}
+	c.Sites++
+	c.check(chain["WithAllNetworkInstances"] && chain["WithElectionOverride"] && !chain["WithNetworkInstance"] && !chain["WithElectionID"], rule, fi.Name, "flushes every network instance, whoever is primary", c.P.pos(send.Pos()),
+		"Flush().WithElectionOverride().WithAllNetworkInstances().Send()", "the clean-up flush is not (all network instances, election override): entries of other instances or of another primary survive into the next test")
+	// an error of Send is fatal
+	ev := func(n ast.Node) []Event {
+		var out []Event
+		for _, call := range callsIn(n) {
+			if call == send {
+				d := &addEvData{call: call}
+				if as := assignedFromCall(info, n, call); len(as) == 2 {
+					d.err = as[1]
+				}
+				out = append(out, Event{Kind: "send", Node: call, Data: d})
+			}
+		}
+		return out
+	}
+	paths, _ := enumFunc(fi, ev, nil)
+	bad := ""
+	nErr := 0
+	for _, p := range paths {
+		si := idx(p, "send")
+		if si < 0 {
+			continue
+		}
+		d := p.Events[si].Data.(*addEvData)
+		if d.err == nil {
+			bad = "the error of Send is dropped"
+			continue
+		}
+		if factsAfter(info, p, si, len(p.Events)).Obj(d.err) == +1 {
+			nErr++
+			fatal := false
+			if p.End == "panic" {
+				if es, ok := p.EndNode.(*ast.ExprStmt); ok {
+					if call, ok := es.X.(*ast.CallExpr); ok {
+						if se, ok := ast.Unparen(call.Fun).(*ast.SelectorExpr); ok && strings.HasPrefix(se.Sel.Name, "Fatal") {
+							fatal = true
+						}
+					}
+				}
+			}
+			if !fatal {
+				bad = "a refused clean-up flush does not fail the test: " + p.describe(c.P)
+			}
+		}
+	}
+	c.check(bad == "" && nErr >= 1, rule, fi.Name, "a refused clean-up is fatal", c.P.pos(fi.Decl.Pos()), fmt.Sprintf("%d error path(s), all Fatal", nErr), bad)
 }
